@@ -84,7 +84,7 @@ TEXT = {
     },
     'C18': {
         'text': 'Partial: transcript binding. The real generic Prio3 derivation functions are instantiated with a recording XOF; Kani proves for all keys/contexts(<=2 bytes)/nonces/ids that each derivation absorbs exactly the specified (seed, tag||ctx, binder) transcript, so a derivation that ignores ctx, nonce, aggregator id, num_proofs, algorithm id or a joint-randomness part fails a named obligation.',
-        'note': 'Rejection under mismatch follows from the transcripts only under the random-oracle assumption on the XOF. Inline derivations of shard_with_random/verify_init and Poplar1/IDPF bindings are not decided (CBMC cost, bitvec).',
+        'note': 'Rejection under mismatch follows from the transcripts only under the random-oracle assumption on the XOF. Inline derivations of shard_with_random/verify_init, the binder each Poplar1 call site passes to init_prng, and IDPF bindings are not decided (CBMC cost, bitvec); Poplar1::init_prng and its tag are.',
         'technique': 'ghost transcript (recording Xof implementation) + postconditions on the real derive_* functions (Kani)',
         'design_ref': 'DESIGN.md §4 C18',
     },
